@@ -196,7 +196,18 @@ def run(ctx):
     groups = collections.defaultdict(dict)
     n_sem = n_sem_groups = n_sem_agree = n_sem_src = n_sem_src_ok = 0
     sem_forms = collections.Counter()
+    n_corpus = n_corpus_ok = 0
     for pid, d in sem_progs.items():
+        if pid.startswith("corpus:"):
+            n_corpus += 1
+            g = (d.get("out") or {}).get("go")
+            payload = {"id": pid, "src": d.get("src"), "expected": d.get("expect"), "observed": g and {"status": g[0], "stdout": vlib.unesc(g[1])[:400]},
+                       "outcome": d.get("reject") or d.get("panic")}
+            if g is not None and g[0] == "ok" and d.get("expect") is not None and vlib.unesc(g[1]) == d["expect"]:
+                n_corpus_ok += 1
+            else:
+                ctx.report({"oracle": "corpus-witness", "program": pid}, f"{pid}: the emitted Go does not print what the source denotes (all call forms of the method)", payload)
+            continue
         if not pid.startswith("sem/"):
             continue
         _, recv, pos, form = pid.split("/")
@@ -235,7 +246,7 @@ def run(ctx):
                        "go_sem_of_the_other_forms": {k: {"status": v[0], "stdout": v[1][:400]} for k, v in outs.items() if k != f},
                        "expected": {"status": ref[0], "stdout": ref[1][:400]}}
             kind = "not-executable" if f in stuck else ("effects-or-result-differ" if o[0] == ref[0] else "ends-differently")
-            rclass = "dyn-of-other-trait" if recv.startswith("dyn_") else "plain"
+            rclass = "dyn-of-other-trait" if recv.startswith("dyn_") else ("overlapping-inherent-impls" if recv.startswith("ovl_") else "plain")
             ctx.report({"oracle": "same-effect", "kind": kind, "form": f, "receiver_class": rclass},
                        f"{recv}, call in {pos} position: the {f} form prints/returns {o[1][:80]!r} ({o[0]}), the other forms {ref[1][:80]!r} ({ref[0]})", payload)
         for f, v in forms.items():
@@ -281,7 +292,7 @@ def run(ctx):
         "distinct_nontrivial": len(distinct) + n_neg_ok + n_extra_ok + n_sem_groups,
         "effect_programs": {"programs": n_sem, "by_form": dict(sem_forms), "groups(receiver x position)": n_sem_groups,
                             "groups_where_all_forms_have_one_go_sem_outcome": n_sem_agree,
-                            "programs_decided_by_SrcSem": n_sem_src, "of_those_equal_to_go_sem": n_sem_src_ok, "generator": sem_feats},
+                            "corpus_witnesses_reproduced": f"{n_corpus_ok}/{n_corpus}", "programs_decided_by_SrcSem": n_sem_src, "of_those_equal_to_go_sem": n_sem_src_ok, "generator": sem_feats},
         "equally_named_method_programs_ok": f"{n_extra_ok}/{len(extras)}",
         "rule": "one case = one generated program; positive programs (receiver type × trait name × method name) contain the static, "
                 "bounded-generic and dyn form of one trait method plus a distractor impl, and both inherent forms for local nominal "
